@@ -623,12 +623,16 @@ func TestVerifC17Gennaro(t *testing.T) {
 			judge("squarefree", fmt.Sprintf("response %d +1", i), guard(func() bool { return squareFreeVerifyStructure(alt) && squareFreeVerifyProof(N, ch, big.NewInt(0), alt) }), false)
 		}
 		short := SquareFreeProof{Responses: sf.Responses[:len(sf.Responses)-1]}
-		judge("squarefree", "last response dropped", guard(func() bool { return squareFreeVerifyStructure(short) && squareFreeVerifyProof(N, ch, big.NewInt(0), short) }), false)
+		judge("squarefree", "last response dropped", guard(func() bool {
+			return squareFreeVerifyStructure(short) && squareFreeVerifyProof(N, ch, big.NewInt(0), short)
+		}), false)
 	}
 	// prime power product
 	{
 		pp := primePowerProductBuildProof(P, Q, ch, big.NewInt(1))
-		judge("primepower", "honest", guard(func() bool { return primePowerProductVerifyStructure(pp) && primePowerProductVerifyProof(N, ch, big.NewInt(1), pp) }), true)
+		judge("primepower", "honest", guard(func() bool {
+			return primePowerProductVerifyStructure(pp) && primePowerProductVerifyProof(N, ch, big.NewInt(1), pp)
+		}), true)
 		judge("primepower", "wrong challenge", guard(func() bool { return primePowerProductVerifyProof(N, inc(ch), big.NewInt(1), pp) }), false)
 		judge("primepower", "wrong index", guard(func() bool { return primePowerProductVerifyProof(N, ch, big.NewInt(2), pp) }), false)
 		for i := range pp.Responses {
@@ -650,19 +654,25 @@ func TestVerifC17Gennaro(t *testing.T) {
 				cand = inc(cand)
 			}
 			alt.Responses[i] = cand
-			judge("primepower", fmt.Sprintf("response %d replaced by a non-root", i), guard(func() bool { return primePowerProductVerifyStructure(alt) && primePowerProductVerifyProof(N, ch, big.NewInt(1), alt) }), false)
+			judge("primepower", fmt.Sprintf("response %d replaced by a non-root", i), guard(func() bool {
+				return primePowerProductVerifyStructure(alt) && primePowerProductVerifyProof(N, ch, big.NewInt(1), alt)
+			}), false)
 		}
 	}
 	// disjoint prime product
 	{
 		dp := disjointPrimeProductBuildProof(P, Q, ch, big.NewInt(2))
-		judge("disjoint", "honest", guard(func() bool { return disjointPrimeProductVerifyStructure(dp) && disjointPrimeProductVerifyProof(N, ch, big.NewInt(2), dp) }), true)
+		judge("disjoint", "honest", guard(func() bool {
+			return disjointPrimeProductVerifyStructure(dp) && disjointPrimeProductVerifyProof(N, ch, big.NewInt(2), dp)
+		}), true)
 		judge("disjoint", "wrong challenge", guard(func() bool { return disjointPrimeProductVerifyProof(N, inc(ch), big.NewInt(2), dp) }), false)
 		judge("disjoint", "wrong index", guard(func() bool { return disjointPrimeProductVerifyProof(N, ch, big.NewInt(0), dp) }), false)
 		for i := range dp.Responses {
 			alt := DisjointPrimeProductProof{Responses: append([]*big.Int{}, dp.Responses...)}
 			alt.Responses[i] = inc(alt.Responses[i])
-			judge("disjoint", fmt.Sprintf("response %d +1", i), guard(func() bool { return disjointPrimeProductVerifyStructure(alt) && disjointPrimeProductVerifyProof(N, ch, big.NewInt(2), alt) }), false)
+			judge("disjoint", fmt.Sprintf("response %d +1", i), guard(func() bool {
+				return disjointPrimeProductVerifyStructure(alt) && disjointPrimeProductVerifyProof(N, ch, big.NewInt(2), alt)
+			}), false)
 		}
 	}
 	// almost safe prime product
@@ -682,7 +692,9 @@ func TestVerifC17Gennaro(t *testing.T) {
 		}
 		ap := almostSafePrimeProductBuildProof(Pp, Qp, ch, big.NewInt(3), commit)
 		verify := func(p AlmostSafePrimeProductProof, c, idx *big.Int) bool {
-			return guard(func() bool { return almostSafePrimeProductVerifyStructure(p) && almostSafePrimeProductVerifyProof(N, c, idx, p) })
+			return guard(func() bool {
+				return almostSafePrimeProductVerifyStructure(p) && almostSafePrimeProductVerifyProof(N, c, idx, p)
+			})
 		}
 		judge("almostsafe", "honest", verify(ap, ch, big.NewInt(3)), true)
 		judge("almostsafe", "wrong challenge", verify(ap, inc(ch), big.NewInt(3)), false)
@@ -783,9 +795,13 @@ func TestVerifC17Gennaro(t *testing.T) {
 				case "squarefree":
 					got = guard(func() bool { return squareFreeVerifyProof(BN, c, index, SquareFreeProof{Responses: resp}) })
 				case "primepower":
-					got = guard(func() bool { return primePowerProductVerifyProof(BN, c, index, PrimePowerProductProof{Responses: resp}) })
+					got = guard(func() bool {
+						return primePowerProductVerifyProof(BN, c, index, PrimePowerProductProof{Responses: resp})
+					})
 				case "disjoint":
-					got = guard(func() bool { return disjointPrimeProductVerifyProof(BN, c, index, DisjointPrimeProductProof{Responses: resp}) })
+					got = guard(func() bool {
+						return disjointPrimeProductVerifyProof(BN, c, index, DisjointPrimeProductProof{Responses: resp})
+					})
 				}
 				judge(kind, fmt.Sprintf("bad modulus %s, challenge #%d, cheating prover answers %d/%d iterations", b.name, ci, answerable, iters), got, want)
 			}
